@@ -70,18 +70,65 @@ fn corpus_case(sh: &mut Shard, rng: &mut Rng, n: usize) {
     unset_env("REFSOLVER_RLIMIT");
 }
 
+/// model values wider than a machine word: a free state and an input of 65-200 bits, a bad state that pins their
+/// sum to a literal with high bits set; the verdict is Fail by construction and the witness has to replay
+fn wide_case(sh: &mut Shard, rng: &mut Rng) {
+    use patronus::system::{State, TransitionSystem};
+    let mut ctx = Context::default();
+    let w = *rng.pick(&[65u32, 66, 70, 97, 100, 127, 128, 129, 160, 200]);
+    let s = ctx.bv_symbol("wide_s", w);
+    let i = ctx.bv_symbol("wide_i", w);
+    let mut sys = TransitionSystem::new("wide".to_string());
+    sys.add_input(&ctx, i);
+    let next = if rng.flip() { ctx.add(s, i) } else { ctx.xor(s, i) };
+    sys.add_state(&ctx, State { symbol: s, init: None, next: Some(next) });
+    let hi = crate::refsem::bv::pow2(w - 1) + rng.big(w - 1);
+    let lit = ctx.bv_lit(&crate::refsem::expr_eval::baa_from_bv(&crate::refsem::bv::Bv::new(w, hi)));
+    let sum = ctx.sub(s, i);
+    let b = ctx.equal(sum, lit);
+    let top = ctx.slice(s, w - 1, w - 1);
+    let bad = ctx.and(b, top);
+    sys.bad_states.push(bad);
+    let label = describe(&ctx, &sys);
+    let persona = *rng.pick(&PERSONAS);
+    let cfgm = McCfg { persona, individually: rng.flip(), check_constraints: false, k_max: 1, solver_seed: rng.next() % 100_000, diversify: if rng.flip() { 0 } else { 3 }, core_mode: "minimal" };
+    let run = run_bmc(&mut ctx, &sys, &cfgm, &sh.workdir.clone(), &format!("c03w_{}", sh.cur.n));
+    sh.count("bmc_runs", 1);
+    sh.count("wide_value_runs", 1);
+    match &run.verdict {
+        Verdict::Fail(wit) => match validate_witness(&ctx, &sys, wit) {
+            Ok(_) => {
+                sh.count("witnesses_validated", 1);
+                sh.count("wide_value_witnesses_validated", 1);
+                sh.distinct(util::mix(&[util::hash_str(&label), util::hash_str(&patronus::btor2::witness_to_string(wit))]));
+            }
+            Err((kind, text)) => {
+                let wt = util::catch(|| patronus::btor2::witness_to_string(wit)).unwrap_or_else(|_| "<unprintable>".into());
+                sh.violation(format!("C03|invalid-witness|{kind}|wide-values"), format!("{text} (persona={persona}, {w}-bit values)\n{label}--- witness\n{wt}"), json!({}));
+            }
+        },
+        other => {
+            if !budget_exceeded(other) {
+                sh.count("wide_value_runs_without_fail_verdict", 1);
+            }
+        }
+    }
+    let _ = std::fs::remove_file(&run.replay);
+    let _ = std::fs::remove_file(&run.log);
+}
+
 impl Check for C03 {
     fn id(&self) -> &'static str {
         "C03"
     }
     fn work(&self, tier: Tier) -> Vec<WorkItem> {
-        vec![WorkItem { mode: "gen", count: tier.pick(1_000, 60_000) }, WorkItem { mode: "corpus", count: super::c11::corpus_files().len() as u64 }]
+        vec![WorkItem { mode: "wide", count: tier.pick(80, 4_000) }, WorkItem { mode: "gen", count: tier.pick(1_000, 60_000) }, WorkItem { mode: "corpus", count: super::c11::corpus_files().len() as u64 }]
     }
     fn evaluations_counter(&self) -> &'static str {
         "witnesses_validated"
     }
     fn rule(&self) -> String {
-        "G2 systems as in C02 whose bad states are reachable within 5 steps according to R4; for each, bmc is run at the bound d (first bad depth) and d+1 against the reference solver under 8 (persona, mode, solver seed, model diversification) combinations, so that the satisfiable query is answered with different legal models and value spellings; every returned witness is replayed in the reference simulator R3: names/order of states and inputs, a value of the declared type for every state and for every input at every step, initial values equal to init expressions, every constraint true at every step, at least one bad true at the last step and the failed list exactly the bads that hold there; the same witness is replayed through patronus::sim::Interpreter and must give the same bad/constraint values. Systems whose bad states the reference search does not reach get one run at a bound below the first bad depth: any witness reported there is validated as well (it cannot be genuine). (PDR witnesses go through the same validator in C10.) mode corpus: every shipped btor2 design with a bad state (quick: files <= 6 kB, 15 steps; thorough: <= 100 kB, 40 steps) is model checked twice (random persona; jointly / individually; plain and diversified models) under a deterministic effort bound of the backend (z3 rlimit; runs over the bound are counted, not judged) and every counterexample goes through the same two replays. distinct_nontrivial = distinct (system, witness) pairs.".into()
+        "G2 systems as in C02 whose bad states are reachable within 5 steps according to R4; for each, bmc is run at the bound d (first bad depth) and d+1 against the reference solver under 8 (persona, mode, solver seed, model diversification) combinations, so that the satisfiable query is answered with different legal models and value spellings; every returned witness is replayed in the reference simulator R3: names/order of states and inputs, a value of the declared type for every state and for every input at every step, initial values equal to init expressions, every constraint true at every step, at least one bad true at the last step and the failed list exactly the bads that hold there; the same witness is replayed through patronus::sim::Interpreter and must give the same bad/constraint values. Systems whose bad states the reference search does not reach get one run at a bound below the first bad depth: any witness reported there is validated as well (it cannot be genuine). (PDR witnesses go through the same validator in C10.) mode wide: a free state and an input of 65-200 bits whose difference a bad state pins to a literal with the top bit set (Fail by construction; the solver prints the values in binary or hex): the witness must replay. mode corpus: every shipped btor2 design with a bad state (quick: files <= 6 kB, 15 steps; thorough: <= 100 kB, 40 steps) is model checked twice (random persona; jointly / individually; plain and diversified models) under a deterministic effort bound of the backend (z3 rlimit; runs over the bound are counted, not judged) and every counterexample goes through the same two replays. distinct_nontrivial = distinct (system, witness) pairs.".into()
     }
     fn assumptions(&self) -> Vec<String> {
         vec!["models come from z3 with randomised seeds plus explicit diversification by the reference solver; every sat model is a legal answer of a conforming solver".into()]
@@ -105,6 +152,10 @@ impl Check for C03 {
         let mut rng = Rng::new(sh.case_seed());
         if case.mode == "corpus" {
             corpus_case(sh, &mut rng, case.n as usize);
+            return;
+        }
+        if case.mode == "wide" {
+            wide_case(sh, &mut rng);
             return;
         }
         let mut ctx = Context::default();
@@ -191,6 +242,7 @@ impl Check for C03 {
     }
     fn finalize(&self, m: &mut Merged, tier: Tier) {
         m.floor("witnesses validated", m.c("witnesses_validated"), tier.pick(3_000, 200_000));
+        m.floor("witnesses with 65-200 bit values validated", m.c("wide_value_witnesses_validated"), tier.pick(60, 3_000));
         m.floor("witnesses of shipped designs validated", m.c("corpus_witnesses_validated"), tier.pick(30, 40));
         m.floor("runs that should have failed but gave another verdict (must be 0 here; C02 reports them)", (m.c("runs_without_fail_verdict") == 0) as u64, 1);
     }
